@@ -20,7 +20,7 @@ from . import text_common as tc, text_gen22, text_core22
 META = {
     "id": "C22", "level": "proof",
     "technique": "Coq theorems parse_print / print_idempotent over a Gallina printer and recursive-descent parser of the core .chalk fragment + differential round trip of the real writer/parser/lowering on generated programs across all listed item kinds",
-    "level_text": "Core fragment (Text/RoundTrip.v: structs/enums with flags, traits with flags, positive/negative/upstream impls, quantified where-clauses of the three kinds without associated types, types: parameters, ADT applications, scalars, tuples, references, raw pointers, slices, str, never): machine-checked that parse (print p) = Some p and that printing the reparsed program reproduces the text, for all well-formed lowered programs (parse_print_partial, print_idempotent_partial; axiom-free). All item kinds/features the property lists (variances, reprs, lang attributes, associated types/values, equality bounds, const/int/float parameters, arrays, fn pointers, dyn, opaque types, fn definitions): differential test of the real write -> parse -> lower -> compare -> write cycle on a feature sweep, the pinned test programs and random combinations.",
+    "level_text": "Core fragment (Text/RoundTrip.v: structs/enums with flags incl. one_zst, repr(C), repr(packed); traits with flags; positive/negative/upstream impls; parameters of every kind (type, lifetime, const, int, float); quantified where-clauses of the three kinds without associated types; types: parameters, ADT applications with type/lifetime/const arguments, scalars, tuples, references, raw pointers, slices, arrays, str, never, fn pointers (for<..>, unsafe, variadic), dyn with forall bounds): machine-checked that parse (print p) = Some p and that printing the reparsed program reproduces the text, for all well-formed lowered programs (parse_print_partial, print_idempotent_partial; axiom-free). Everything else the property lists (associated types/values and equality bounds, variances, repr(int), lang attributes, opaque types, fn definitions): differential test of the real write -> parse -> lower -> compare -> write cycle on a feature sweep, the pinned test programs and random combinations.",
     "level_note": "Partial by construction: outside the Coq fragment only the end-to-end test applies (a differential test, not a theorem); the LALRPOP grammar is not translated: the model parser is a hand-written recursive descent over tokens, tied to the real code per run by (a) token equality of the model printer with the real write_items, (b) equality of the real lowering of the source with the model program, (c) the real round trip itself.",
     "design_ref": "DESIGN.md §4 C22",
     "bins": ["text"],
